@@ -18,7 +18,17 @@ Judge(e) ==
      \cup (IF wf = {} /\ mf # {} THEN {[id |-> e.id, tags |-> <<"C09">>, why |-> "object does not match the run", at |-> "coff", i |-> 0, obs |-> mf, bits |-> 32]} ELSE {})
      \cup (IF wf = {} /\ e.pe.err = "" /\ e.pe.nsyms # Len(Externals(e.obj)) + 4
            THEN {[id |-> e.id, tags |-> <<"C08">>, why |-> "independent reader sees a different number of symbols", at |-> "coff", i |-> 0, obs |-> {e.pe.nsyms}, bits |-> 32]} ELSE {})
-Step == /\ l <= N /\ (\A r \in Judge(Trace[l]) : PrintT(<<"REJ", ToJson(r)>>)) /\ l' = l + 1
+\* C15 on objects: b is a with its symbols renamed by e.map (pairs <<from, to>> of name bytes): same code, same symbol
+\* values / sections / order; only names (and therefore the string table) differ
+JudgePair(e) ==
+  LET Ren(n) == LET hits == {j \in 1..Len(e.map) : e.map[j][1] = n} IN IF hits = {} THEN n ELSE e.map[CHOOSE j \in hits : TRUE][2]
+      xa == Externals(e.a)  xb == Externals(e.b)
+      ok == /\ e.a.textsha = e.b.textsha /\ Len(xa) = Len(xb) /\ e.a.nsyms = e.b.nsyms
+            /\ \A j \in 1..Len(xa) : xb[j].name = Ren(xa[j].name) /\ xb[j].value = xa[j].value /\ xb[j].sec = xa[j].sec
+  IN IF ok THEN {} ELSE {[id |-> e.id, tags |-> <<"C15">>, why |-> "renamed object differs in more than symbol names", at |-> "coffpair", i |-> 0, obs |-> {0}, bits |-> 32]}
+Step == /\ l <= N
+        /\ (\A r \in (IF Trace[l].e = "coffpair" THEN JudgePair(Trace[l]) ELSE Judge(Trace[l])) : PrintT(<<"REJ", ToJson(r)>>))
+        /\ l' = l + 1
 Done == l = N + 1 /\ PrintT("TRACE-CONSUMED") /\ l' = N + 2
 Init == l = 1
 Next == Step \/ Done
